@@ -59,6 +59,10 @@ fn c06_receive_acks_authorized() {
     let second_is_zero = len >= 4 && message[2] == 0 && message[3] == 0;
     let mut server = server_with_channels();
     server.insert_received(CLIENTS[0], ClientChannel::MutationAcks, message);
+    // Witnesses taken BEFORE the call: if the call does not terminate, these are the inputs the
+    // native replay is run with.
+    kani::cover!(len >= 2, "a message with at least one complete index is offered");
+    kani::cover!(len == 1, "a message with a partial index is offered");
 
     receive_acks(
         SystemChangeTick { last_run: this_run, this_run },
@@ -102,6 +106,10 @@ fn c06_receive_acks_unauthorized() {
     let (message, len) = any_message_5();
     let mut server = server_with_channels();
     server.insert_received(CLIENTS[0], ClientChannel::MutationAcks, message);
+    // Witnesses taken BEFORE the call: if the call does not terminate, these are the inputs the
+    // native replay is run with.
+    kani::cover!(len >= 2, "a message with at least one complete index is offered");
+    kani::cover!(len == 1, "a message with a partial index is offered");
 
     receive_acks(
         SystemChangeTick { last_run: this_run, this_run },
